@@ -572,6 +572,7 @@ func c15Replay(args []string) int {
 		nontrivial := canon(e.Pre) != canon(e.Post) || wantErr
 		sel := selectorSpelling(e.Act, e.Pre)
 		inputMutated := false
+		notRepeatable := false
 		chain := len(e.Hist) > 1
 		startIR := any(e.Pre)
 		if chain {
@@ -632,7 +633,28 @@ func c15Replay(args []string) int {
 			if perr != nil {
 				return nil, true, ""
 			}
-			return normalize(projSchemas(out)), false, ""
+			first := normalize(projSchemas(out))
+			// the SAME pass instances applied once more to an equal input give an equal result: a pipeline applies one
+			// transformation list once per output language, so a pass that keeps state or shares its parameters with the
+			// schemas it rewrote (which a later pass then modifies) changes what the next application does
+			if !viaYAML {
+				if again, aerr := unprojSchemas(startIR); aerr == nil {
+					var out2 verifapi.Schemas
+					var perr2 error
+					func() {
+						defer func() {
+							if r := recover(); r != nil {
+								perr2 = fmt.Errorf("panic: %v", r)
+							}
+						}()
+						out2, perr2 = passes.Process(again)
+					}()
+					if perr2 != nil || canon(normalize(projSchemas(out2))) != canon(first) {
+						notRepeatable = true
+					}
+				}
+			}
+			return first, false, ""
 		}
 		type failure struct {
 			sig string
@@ -715,6 +737,12 @@ func c15Replay(args []string) int {
 				exc["diff"] = J{"path": strings.Join(d.Path, "."), "want": d.Want, "got": d.Got}
 				fails = append(fails, failure{fmt.Sprintf("C15/%s/%s/sel=%s", actName, cls, sel), exc})
 			}
+		}
+		if notRepeatable {
+			// a Go-side clause of its own: the FIRST application is what TLC judges against the specification (okEdge)
+			fails = append(fails, failure{fmt.Sprintf("C15/%s/not-repeatable/sel=%s", actName, sel),
+				J{"pre": e.Pre, "act": e.Act, "expected": e.Post, "route": "direct", "init": e.Init, "hist": e.Hist,
+					"problem": "the same pass instances applied a second time to an equal input give a different result"}})
 		}
 		if inputMutated {
 			cls := "chain"
